@@ -224,6 +224,28 @@ func buildErrModel(c *Ctx) *errModel {
 	}).(*errModel)
 }
 
+// onlyCalledFrom: an unexported method that is never used as a value and whose every caller is one of the listed
+// methods of the same type (or, one level up, such a helper again).
+func onlyCalledFrom(c *Ctx, f *ssa.Function, listed map[string]bool, depth int) bool {
+	ix := sitesOf(c)
+	if depth > 2 || f.Parent() != nil || ix.taken[f] || len(ix.sites[f]) == 0 || (f.Object() != nil && f.Object().Exported()) {
+		return false
+	}
+	for _, cs := range ix.sites[f] {
+		g := cs.Fn
+		if namedOf(recvType(g)) != namedOf(recvType(f)) {
+			return false
+		}
+		if listed[g.Name()] {
+			continue
+		}
+		if !onlyCalledFrom(c, g, listed, depth+1) {
+			return false
+		}
+	}
+	return true
+}
+
 // appendsExactly: append(s, v) with exactly the one element v.
 func appendsExactly(call *ssa.Call, v ssa.Value) bool {
 	if len(call.Common().Args) != 2 {
@@ -739,7 +761,7 @@ func init() {
 							}
 						}
 						if !used {
-							if namedOf(recvType(f)) == "Url" && setterOK[f.Name()] {
+							if namedOf(recvType(f)) == "Url" && (setterOK[f.Name()] || onlyCalledFrom(c, f, setterOK, 0)) {
 								s.OK(key, pos, "setter semantics: the API setter deliberately ignores the parser's result (listed exception)")
 							} else {
 								s.Bad(key, pos, "error result is dropped")
